@@ -358,7 +358,7 @@ class Inference(ABC):
                 if p.is_alive():
                     p.terminate()
                     p.join()  # Ensure the process has terminated
-                    mp_return_dict[processes.index((p, i, query))] = (
+                    mp_return_dict[i] = (
                         i,
                         False,
                         True,
